@@ -33,6 +33,7 @@ namespace verif
         int          fail_mode = 0;                    // 0: std::bad_alloc, 1: return nullptr
         std::vector<ublock> blocks;
         std::string  oplog;                            // upstream calls since last take()
+        void (*ev_hook)(char) = nullptr;               // called with 'A' / 'F' on every successful allocation / release
         long         errors    = 0;
         long         total_alloc = 0, total_dealloc = 0;
 
@@ -83,7 +84,7 @@ namespace verif
                 down = (down - size - gap) & ~(al - 1);
                 std::size_t o = down;
                 blocks.push_back({o, size, align, true, tag});
-                ++total_alloc;
+                ++total_alloc; if (ev_hook) ev_hook('A');
                 std::snprintf(buf, sizeof buf, " U+ %zu %zu %zu", size, align, o); oplog += buf;
                 return base + o;
             }
@@ -92,7 +93,7 @@ namespace verif
             if (bump + size > region - (2 << 20)) { std::fprintf(stderr, "upstream region exhausted\n"); std::exit(3); }
             std::size_t o = bump; bump += size;
             blocks.push_back({o, size, align, true, tag});
-            ++total_alloc;
+            ++total_alloc; if (ev_hook) ev_hook('A');
             std::snprintf(buf, sizeof buf, " U+ %zu %zu %zu", size, align, o); oplog += buf;
             return base + o;
         }
@@ -104,7 +105,7 @@ namespace verif
             for (auto& b : blocks)
                 if (b.live && b.off == o) { found = true; if (b.size != size || b.align != align) { ++errors; oplog += " U!mismatch"; } if (b.tag != tag) { ++errors; oplog += " U!foreign"; } b.live = false; break; }
             if (!found) { ++errors; oplog += " U!unknown"; }
-            ++total_dealloc;
+            ++total_dealloc; if (ev_hook) ev_hook('F');
             std::snprintf(buf, sizeof buf, " U- %zu %zu %zu", size, align, o); oplog += buf;
             if (found) std::memset(p, 0xEE, size);
         }
